@@ -173,6 +173,28 @@ def replay_known(ctx, binp):
         obs = " ".join("%s=%s" % x for x in sorted(kv.items()))
         if kv.get("wrong") == "true":
             ctx.violation("ephemeral-autodelete-leaves-zombie-consumer", "%s: %s" % (name, obs), sched + "# observed: " + obs + "\n")
+    # Empty / channel deletion while consumers are taking messages from the memory backlog (seeded C08-m6): unsteered rounds,
+    # replayed on every run - the free-running concurrent leg reaches a stuck Empty at its stop only by luck
+    name = "empty_while_consumer_drains"
+    rc, kv, out = run_sched(ctx, binp, name, timeout=60)
+    res[name] = kv or {"error": out[-300:]}
+    sched = open(os.path.join(ROOT, "corpus", "C08", name + ".sched")).read()
+    if not kv:
+        if rc == -9 or "test timed out" in out:
+            ctx.violation("daemon-hangs:" + name, "%s did not finish" % name, sched)
+        else:
+            ctx.broken_ties.append("replay %s did not run (rc=%s)" % (name, rc))
+    else:
+        ctx.evaluations += int(kv.get("rounds", "0"))
+        ctx.count_case("sched:" + name, nontrivial=True)
+        obs = " ".join("%s=%s" % x for x in sorted(kv.items()))
+        if kv.get("blocked", "none") != "none":
+            ctx.violation("daemon-hangs:" + name, "Empty / delete of a channel whose memory backlog is being delivered did not "
+                          "return (holding the channel lock; GetStats behind it: %s): %s" % (kv.get("stats_behind_it"), obs),
+                          sched + "# observed: " + obs + "\n")
+        elif kv.get("wrong", "none") != "none":
+            ctx.violation("empty-while-draining:" + kv["wrong"].split(":")[-1][:40], "%s: %s" % (name, obs),
+                          sched + "# observed: " + obs + "\n")
     rc, kv, out = run_sched(ctx, binp, "empty_races_delivery")
     res["empty_races_delivery"] = kv or {"error": out[-300:]}
     if not kv:
